@@ -9,6 +9,11 @@ Correspondence: the module as the API presents it is sent to the Lean model `Cap
 `Reqif`), whose abstract document (identifiers, *-REF texts, spec objects with values, hierarchy, or the
 exception class) is compared with the document re-parsed from the bytes `CapellaModule.to_reqif` wrote.
 
+A second stream (`tree`) compares the model's whole element tree (`Capella.Reqif.Doc.toXml`: header, every tag, attribute,
+constant, text, in document order) with the re-parsed bytes; the iteration order of the exporter's sets is observed and
+handed to the model as its `setOrder` parameter, so nothing is sorted. A third check exports the same modules in
+subprocesses under different PYTHONHASHSEEDs.
+
 Monitor: direct encoding of the property on the exported bytes and the *raw XML* of the model (no
 model, no exporter code): second parser accepts the bytes, identifiers unique, every *-REF resolves,
 requirements of the raw `ownedRequirements` tree exactly once as SPEC-OBJECT and once in the hierarchy in
@@ -38,27 +43,35 @@ RULE = ("one case = one export of one module state; module states are (a) all Ca
         "/repo/tests/data and (b) every prefix of seeded API edit histories on a fresh module (ops: add/remove/move "
         "requirement and folder, set fields from a pool with markup-significant texts, set/unset types, new types with and "
         "without attribute definitions, definitions with/without data type, attributes of the six value kinds with/without "
-        "definition, enumeration values); distinct = distinct abstract input (module JSON sent to the model); non-trivial = "
+        "definition — also of the other class —, enumeration values, re-typing a definition's data type) and a folder chain "
+        "of depth 96 (quick) / 400 (thorough); each state is exported with one of 6 metadata variants; 9 module states are "
+        "exported under 3 (quick) / 6 (thorough) PYTHONHASHSEEDs; distinct = distinct abstract input (module JSON sent to the model); non-trivial = "
         "the module has at least one requirement inside a folder or one attribute")
 ASSUMPTIONS = [
     "lxml.html.fromstring + html_to_xhtml (rich-text conversion) is a parameter of the model: the harness computes it with the same library and the model places the result",
     "str(float), datetime.astimezone/strftime and lxml's XML serialisation/escaping are parameters; the monitor re-parses the bytes with lxml and with expat",
     "object identity of types/definitions/data types is identity of uuid (the object layer resolves references by uuid)",
-    "model domain: enumeration attributes reference enumeration definitions and only values of the definition's data type (the metamodel's typing); histories keep to it",
+    "the iteration order of the exporter's set[_AttributeDefinition] objects is a parameter of the model (Module.setOrder, any rearrangement); the harness observes it by building the same sets once more (exporter._collect_objects) and the model checks nothing but that it is a rearrangement of what it collects itself",
+    "header: the formatted creation time, repr() of the two names in the default comment, capellambse.__version__ and the Capella version string are parameters",
+    "the model covers class-violating links and stale enumeration values as coded (AttributeError, dangling ENUM-VALUE-REF); refs_closed_partial states the exact condition under which the document is closed",
     "depth-first order = for every container its `requirements` in order, then its `folders` in order, recursively (the two lists the object layer exposes); folders themselves are not exported",
 ]
 TRUSTED = ["C20: harness extraction of the module into JSON (harness/props/c20.py: describe) and the re-parse of the exported bytes (parse_doc)"]
 MANIFEST = dict(
     text=("Lean theorems over a model of the ReqIF exporter (collection of used types/definitions, datatypes, spec types, "
-          "spec objects, hierarchy, identifier rendering, compress decision): for every module tree every *-REF is defined in "
-          "the document, all identifiers (structured and rendered as strings, for hex-and-dash uuids) are pairwise distinct, "
+          "spec objects, hierarchy, identifier rendering, compress decision, and the element tree with header, constants and "
+          "LAST-CHANGE that is serialised): for every module tree and every iteration order of the exporter's sets every *-REF "
+          "is defined in the document (exact condition: every enumeration choice belongs to an emitted data type), the generic "
+          "scans of the element tree for IDENTIFIER attributes and *-REF elements are these identifiers and references, "
+          "all identifiers (structured and rendered as strings, for hex-and-dash uuids) are pairwise distinct, "
           "spec objects and hierarchy are both the depth-first order of the module with every requirement exactly once, every "
           "value is placed under its own definition and decodes back to the attribute value, and compressed output holds the "
           "same document. The model is tied to /repo by a differential run over all corpus modules and seeded API edit "
           "histories; an independent raw-XML monitor is the failing-input search."),
     design_ref="§6 C20",
     note=("Trusted: Lean kernel; lxml.html rich-text conversion, float/datetime formatting and XML serialisation as parameters; "
-          "harness extraction/re-parse. Known finding: enumeration attribute without definition makes the exporter raise."),
+          "harness extraction/re-parse. Known findings: enumeration attribute without definition and class-violating links make the "
+          "exporter raise; an enumeration choice outside the definition's data type leaves a dangling ENUM-VALUE-REF."),
     technique="Lean 4 proof (induction on the folder tree, list invariants, injectivity of identifier rendering) + differential correspondence on corpus modules and API edit histories + raw-XML monitor",
 )
 
